@@ -52,10 +52,10 @@ def gen_trace(tid, kw, calls, seeds_by_gen, explicit_args=None):
                 nj, nm = explicit_args[k % len(explicit_args)]
                 k += 1
             out, inst = _outcome(lambda: gens[g].generate(**({"num_jobs": nj} if nj else {}), **({"num_machines": nm} if nm else {})))
-            ev = {"a": "Generate", "g": g, "nj": nj, "nm": nm, "out": out, "inst": [], "name": ""}
+            ev = {"a": "Generate", "g": g, "nj": nj, "nm": nm, "out": out, "inst": [], "name": "", "nmrep": 0}
             if out == "ok":
                 ab = model.instance_to_abstract(inst)
-                ev.update({"inst": ab, "name": inst.name})
+                ev.update({"inst": ab, "name": inst.name, "nmrep": model.num(inst.num_machines)})
                 outs[g - 1].append(ab)
                 names[g - 1].append(inst.name)
                 ev["post"] = {"outs": [list(o) for o in outs], "names": [list(n) for n in names]}
@@ -103,6 +103,39 @@ def iter_and_coverage_trace(tid, kw, seed, n_cov):
             "gen": p, "seeds": [seed], "events": events, "kind": "G", "kw": kw}
 
 
+def iter_proto_trace(tid, kw, seed, limit, calls):
+    """calls: [{"c": "iter"} | {"c": "next"} | {"c": "generate"}] (chosen by TLC, or random and longer), executed on
+    one real generator; what each next() did is logged and judged against GeneratorIter.tla by the monitor."""
+    from job_shop_lib.generation import GeneralInstanceGenerator
+    events = [{"a": "GenInit", "post": {"outs": [[]], "names": [[]]}}]
+    g = GeneralInstanceGenerator(**dict(kw, seed=seed, iteration_limit=limit))
+    logged, names = [], []
+    for c in calls:
+        rec = {"c": c["c"], "r": "ok"}
+        try:
+            if c["c"] == "iter":
+                if iter(g) is not g:
+                    rec["r"] = "exc:iter-returned-another-object"
+            elif c["c"] == "next":
+                try:
+                    names.append(next(g).name)
+                    rec["r"] = "yield"
+                except StopIteration:
+                    rec["r"] = "stop"
+            else:
+                names.append(g.generate().name)
+        except Exception as ex:  # noqa: BLE001
+            rec["r"] = "exc:" + type(ex).__name__
+        logged.append(rec)
+    try:
+        ln = len(g)
+    except Exception:  # noqa: BLE001
+        ln = -1
+    events.append({"a": "IterProto", "limit": limit, "calls": logged, "names": names, "len": ln})
+    return {"tid": tid, "inst": PLACEHOLDER, "filt": [], "kinds": [], "featcheck": False, "freshcheck": False, "fresh_obs": [],
+            "gen": abstract_params(kw), "seeds": [seed], "events": events, "kind": "G", "kw": kw}
+
+
 GRID = [
     dict(num_jobs=(2, 4), num_machines=(2, 3), duration_range=(1, 9)),
     dict(num_jobs=3, num_machines=3, duration_range=(5, 10)),
@@ -125,6 +158,21 @@ def c19():
         chk.mc("MC_Generator.tla", "GenSpec",
                {"Gens": "{1, 2, 3}", "Seeds": "{11, 12}", "MaxCalls": 3 if chk.tier == "quick" else 4,
                 "RngDesign": '"private"'}, ["Inv_C19_SameSeedSameSequence"], name="C19-streams")
+        # the iteration protocol: every call sequence of __iter__/__next__/generate() up to the bound
+        for lim in (1, 2, 3):
+            chk.mc("MC_GeneratorIter.tla", "IterSpec",
+                   {"Limit": lim, "MaxLen": 8 if chk.tier == "quick" else 11, "IterDesign": '"reset-on-iter"'},
+                   ["Inv_C19_PassYieldsExactlyLimit", "Inv_C19_CounterIsPass"], name=f"C19-iter{lim}")
+        iter_behs = []
+        for lim in (1, 2, 3):
+            cfgi = SPEC / f".gen_c19i{lim}.cfg"
+            cfgi.write_text(cfg_text("IterSpec", {"Limit": lim, "MaxLen": 6 if chk.tier == "quick" else 8,
+                                                  "IterDesign": '"reset-on-iter"'}, constraints=["Emit"]))
+            try:
+                bi, _ = tlcio.generate("Gen_GeneratorIter.tla", cfgi.name, f"c19i{lim}", workers=1)
+            finally:
+                cfgi.unlink(missing_ok=True)
+            iter_behs += bi
     finally:
         framework.CONST_DEFAULTS.update(saved)
     # TLC chooses the interleavings of constructor / generate() calls on two objects with one seed
@@ -160,6 +208,16 @@ def c19():
             traces.append(gen_trace(tid, kw, calls, {1: 100 * gi + rep + chk.seed}))
         tid += 1
         traces.append(iter_and_coverage_trace(tid, kw, 3 + gi + chk.seed, _n(chk, 150, 600)))
+    # every TLC-enumerated call sequence of the iteration protocol, on real generators (small instances), and longer random ones
+    small = dict(num_jobs=(2, 3), num_machines=(2, 3), duration_range=(1, 5))
+    for k, b in enumerate(iter_behs):
+        tid += 1
+        traces.append(iter_proto_trace(tid, small if k % 5 else GRID[k % len(GRID)], chk.seed + k, b["limit"], b["calls"]))
+    for k in range(_n(chk, 60, 600)):
+        tid += 1
+        lim = rng.randint(1, 6)
+        calls = [{"c": rng.choice(["iter", "next", "next", "next", "generate"])} for _ in range(rng.randint(5, 40))]
+        traces.append(iter_proto_trace(tid, small, chk.seed + 7 * k, lim, calls))
     chk.monitor(traces, source="generators", case_key=lambda t: json.dumps([t["gen"], t["seeds"], len(t["events"])]))
     chk.assumptions.append("'drawn from all M machines' is judged on the union over >= 150 generated instances per "
                            "parameter set (a correct generator misses a machine with probability < 1e-30)")
